@@ -188,6 +188,12 @@ func (r *reference) resolve(cfg *Config, opts *options) (value, error) {
 }
 
 func (r *reference) eval(cfg *Config, opts *options) (string, error) {
+	// the reference is only active while it is being evaluated, so the same
+	// variable can be used more than once in a string
+	parentFields := opts.activeFields
+	opts.activeFields = newFieldSet(parentFields)
+	defer func() { opts.activeFields = parentFields }()
+
 	v, err := r.resolve(cfg, opts)
 	if err != nil {
 		return "", err
@@ -256,7 +262,10 @@ func (e *expansionAlt) eval(cfg *Config, opts *options) (string, error) {
 	}
 
 	ref := newReference(parsePath(path, e.pathSep, opts.maxIdx, opts.enableNumKeys, opts.escapePath))
+	parentFields := opts.activeFields
+	opts.activeFields = newFieldSet(parentFields)
 	tmp, err := ref.resolve(cfg, opts)
+	opts.activeFields = parentFields
 	if err != nil || tmp == nil {
 		return "", nil
 	}
